@@ -604,6 +604,14 @@ fn part_c(rng: &mut Rng, n: u64, out: &mut Out) {
         let where_ = if !returned_bad { "all-mined" } else if plan.reorg.contains(&bad) { "unmined-in-reorg-section" } else if plan.sampled.contains(&bad) { "unmined-in-sampled-section" } else { "unmined-in-last-n-section" };
         let descr = format!("PoW engine {}: main branch of {} blocks, client proven at #{}, the peer switches to a branch forking at #{} (tip #{}), last_n={}; the honest answer over that branch = reorg {:?} sampled {:?} last-N {:?}; unmined block: {}",
             consensus.pow, total, first, fork_at, tip, last_n, plan.reorg, plan.sampled, plan.last_n, if bad == u64::MAX { "none".to_string() } else { format!("#{}", bad) });
+        // every third world: instead of the proof the peer answers with ANOTHER last header and no proof (the server's "my tip moved"
+        // answer) - a header whose nonce does not satisfy its target; it must not even become the peer's last state
+        if bad != u64::MAX && bad < fork.len() && i % 3 == 1 {
+            let other = Resp { last: fork.packed_vheader(bad), headers: Vec::new(), proof: Vec::new() };
+            handler_case(out, &format!("pow-{}-newlast", i), &["handler", "pow-engine", "new-last-state-without-pow"], &mut c, peer, &other, false, false, tau,
+                &format!("{}; the peer answers the request with the unmined block #{} as its new last state and no proof", descr, bad));
+            continue;
+        }
         handler_case(out, &format!("pow-{}", i), &["handler", "pow-engine", where_], &mut c, peer, &base, !returned_bad, !returned_bad, tau, &descr);
     }
 }
